@@ -13,7 +13,7 @@ tname=$(basename $place .rs)
 log=$m/confirm.log; : > $log
 echo "== demo without change" >> $log
 cargo test -p $pkg --test $tname --offline >> $log 2>&1; r0=$?
-git apply $m/patch.diff || { echo "PATCH-FAIL $m"; exit 2; }
+git apply $m/${PATCHFILE:-patch.diff} || { echo "PATCH-FAIL $m"; exit 2; }
 echo "== demo with change" >> $log
 cargo test -p $pkg --test $tname --offline >> $log 2>&1; r1=$?
 rm -f $wt/$place
